@@ -14,8 +14,11 @@ GOENV = dict(os.environ, GOFLAGS="-mod=mod", GOPROXY="off", GOSUMDB="off", GOTOO
 def sh(cmd, timeout=600, cwd=None, env=None, stdin=None):
     """run a command; returns (returncode, stdout+stderr).  rc 124 on timeout."""
     try:
+        # never let a child inherit whatever standard input the check was started with: csvq reads a table from
+        # standard input when that is a pipe or a file (a FROM-less SELECT then answers from it)
+        kw = dict(input=stdin) if stdin is not None else dict(stdin=subprocess.DEVNULL)
         p = subprocess.run(cmd, cwd=cwd, env=env, timeout=timeout, stdout=subprocess.PIPE,
-                           stderr=subprocess.STDOUT, input=stdin, shell=isinstance(cmd, str))
+                           stderr=subprocess.STDOUT, shell=isinstance(cmd, str), **kw)
         return p.returncode, p.stdout.decode("utf-8", "replace")
     except subprocess.TimeoutExpired as e:
         out = e.stdout.decode("utf-8", "replace") if e.stdout else ""
